@@ -191,7 +191,9 @@ def run(ctx):
     ctx.rule = ("mixed captures (0–2 TLS connections of random version/suite, 0–1 QUIC, unrelated TCP/UDP/non-IP frames) under "
                 "damage ∈ {none, no keys, half of the key lines, wrong secrets, 15 % packets dropped, truncated capture, "
                 "HTTP-on-443 + arbitrary UDP} × options ∈ {∅, -a, -m, -m 443:8443, -a -m 443:9000, , -p 8443, -c, -a -c -m}; the "
-                "strict reader must accept the output. Plus every (n, k): a record of n bytes carried by k packets. "
+                "strict reader must accept the output; for undamaged TLS connections without -a also the per-record clause against the "
+                "sender's ground truth (exported segments never span records; a record carried by k captured segments comes out "
+                "in at most k); one-directional QUIC downloads of more than 65507 bytes. Plus every (n, k): a record of n bytes carried by k packets. "
                 "non-trivial iff the output has ≥ 1 packet (legitimately empty outputs are counted separately).")
     ctx.assumptions = ["TCP sequence space of one exported conversation stays below 2^32 (no > 4 GiB flows generated)"]
     import c06_model
